@@ -6,7 +6,7 @@ Import ListNotations.
 Open Scope N_scope.
 
 (* [spec_response app code r]: the RFC 4511 response PDU a server builds for result r (code octets `code`, matched DN, diagnostic text,
-   optional referral list, SASL credentials, extended-response name and value); [wf_res]: code < 2^32, strings UTF-8.
+   optional referral list, SASL credentials, extended-response name and value); [wf_res]: code of 1 to 8 octets, < 2^32, strings UTF-8.
    [result_of_tree]: the model of the library's conversion of a response protocolOp into the structs handed to the caller. *)
 Theorem c03_result_of_spec : forall app_id code r, wf_res code r -> result_of_tree (spec_response app_id code r) = Ok r.
 Proof. exact Result.c03_result_of_spec. Qed.
@@ -41,6 +41,10 @@ Proof. exact Result.c03_cmp_non_error_iff. Qed.
    success), and the decoder never delivers a frame under a message id outside 0 .. 2^31-1 (as found, 2^32+1 was delivered as id 1) *)
 Theorem c03_refuted_F28 : rc_as_found [x01; x00; x00; x00; x00] = 0.
 Proof. exact Result.c03_refuted_F28. Qed.
+(* F51: a result code without content octets read as 0; now the response is malformed *)
+Theorem c03_refuted_F51 : rc_as_found [] = 0 /\ result_of_tree (C Application 24 [P Universal 10 []; P Universal 4 []; P Universal 4 []]) = Panic /\
+  result_of_tree (C Application 24 [P Universal 10 [x00]; P Universal 4 []; P Universal 4 []]) <> Panic.
+Proof. exact Result.c03_refuted_F51. Qed.
 
 Theorem c01_decoded_id_in_range : forall (fx : dfix) (buf : list byte) (mid : N) (op : tree) (cs : list ctrl) (rest : list byte), fix30 fx = true -> decode_inner' fx buf = DFrame mid op cs rest -> mid <= 2147483647.
 Proof. exact FrameFixed.c01_decoded_id_in_range. Qed.
@@ -56,5 +60,6 @@ Print Assumptions c03_non_error_iff.
 Print Assumptions c03_equal_spec.
 Print Assumptions c03_cmp_non_error_iff.
 Print Assumptions c03_refuted_F28.
+Print Assumptions c03_refuted_F51.
 Print Assumptions c01_decoded_id_in_range.
 Print Assumptions c01_refuted_F30.
